@@ -399,6 +399,8 @@ val dyn0 : dynHdr
 
 val inflate0 : inflate
 
+val inflate_reset : inflate -> inflate
+
 val br_set_bits : bitrd -> n -> bitrd
 
 val br_set_len : bitrd -> z -> bitrd
@@ -627,3 +629,23 @@ val erun : n -> n list list -> terminal -> n list -> (n list * rres) list
 val rres_code : rres -> n
 
 val erun_obs : n -> n list list -> bool -> n list -> (n list * n) list * n
+
+val mkbufrd : n -> n list list -> terminal -> bufrd
+
+val dReset : decompressor -> bufrd -> decompressor
+
+val eread_all :
+  decompressor -> n list -> (n list * rres) list -> (n list * rres)
+  list * decompressor
+
+val erun2 :
+  n -> n list list -> terminal -> n list -> n -> n list list -> terminal -> n
+  list -> ((n list * rres) list * (n list * rres) list) * n
+
+val obs_codes : (n list * rres) list -> (n list * n) list
+
+val term_of : bool -> terminal
+
+val erun2_obs :
+  n -> n list list -> bool -> n list -> n -> n list list -> bool -> n list ->
+  ((n list * n) list * (n list * n) list) * n
